@@ -343,7 +343,10 @@ func (wvs *worldVirtualState) GetFuture(reqs []LockRequest) WorldVirtualState {
 	nwvs := new(worldVirtualState)
 	nwvs.worldVirtualContext = wvs.worldVirtualContext
 	nwvs.waiter = sync.NewCond(&nwvs.mutex)
+	// committed is written by the parent's worker in Commit()
+	wvs.mutex.Lock()
 	nwvs.base = wvs.committed
+	wvs.mutex.Unlock()
 	nwvs.parent = wvs
 	nwvs.nodeCacheEnabled = wvs.nodeCacheEnabled
 	applyLockRequests(nwvs, reqs)
